@@ -148,7 +148,9 @@ Example C02_example :
   /\ snd (run_sched (fun _ => ts0)
             [(0%nat, BEnter (Some 2)); (1%nat, BGet); (0%nat, BSet (Some 3)); (0%nat, BGet);
              (1%nat, BSet (Some 3)); (0%nat, BExitExc); (0%nat, BGet); (1%nat, BGet)])
-  = [(1%nat, 0); (0%nat, 3); (0%nat, 0); (1%nat, 3)].
+  = [(1%nat, 0); (0%nat, 3); (0%nat, 0); (1%nat, 3)]
+  /\ own_ok true jit_init_copies (mk_oprog [OFromA 0%nat; OFromB 0%nat] [OFromA 1%nat; OFresh] [OFromB 0%nat; OFromA 0%nat])
+        [0%nat] [([[1%nat]; [2%nat]], [3%nat]); ([], [4%nat])] (mk_os 5 []) = true.
 Proof. vm_compute. repeat split. Qed.
 
 Print Assumptions C02_pmap_equals_seq.
